@@ -205,10 +205,10 @@ def gen_contain(rng):
                "lib/../../outside/secret.etk", "@T@/outside/secret.etk", "@T@/proj/lib/ok.etk", "lib/esc.etk",
                "missing.etk", "loop", "lib", "../proj/lib/ok.etk", "dirlink_in/../../outside/secret.etk",
                "../proj-private/secret.etk", "@T@/proj-private/secret.etk", "sib_link.etk", "lib/../../proj-private/secret.etk",
-               "lib/bin.etk"]
+               "lib/bin.etk", "../elsewhere/lib/ok.etk"]
     hex_targets = ["lib/ok.hex", "../outside/secret.hex", "dirlink_out/secret.hex", "@T@/outside/secret.hex", "dirlink_in/ok.hex",
                    "../proj2/secret.hex", "@T@/proj2/secret.hex", "lib", "missing.hex", "lib/bin.hex", "lib/bad.hex", "lib/odd.hex",
-                   "lib/ws.hex", "loop"]
+                   "lib/ws.hex", "loop", "../elsewhere/lib/ok.hex"]
     # nested sources with directives of their own: paths in them are relative to THEIR directory, and a plain
     # descending path can still leave the root through a symlinked file or directory next to the nested file
     entries += [("l", "proj/lib/vendor", "../../outside"), ("l", "proj/lib/deep/out.etk", "../../../outside/secret.etk"),
@@ -237,8 +237,14 @@ def gen_contain(rng):
         entries.append(("f", f"proj/{d}/{name}", ("\n".join(body) + "\n").encode()))
         nested.append(f"{d}/{name}")
     lines = directives(targets + nested * 6, hex_targets, rng.randrange(1, 4))
-    top = rng.choice(["proj/main.etk", "proj/main.etk", "realroot_link/main.etk"])
+    top = rng.choice(["proj/main.etk", "proj/main.etk", "realroot_link/main.etk", "proj/main_link.etk"])
     entries.append(("f", "proj/main.etk", ("\n".join(lines) + "\n").encode()))
+    # the top-level source itself reached through a symlinked FILE whose target lives in another directory: the root is
+    # the directory of the path AS GIVEN (proj/), not of the link target — files beside the target are outside
+    entries.append(("f", "elsewhere/real_main.etk", ("\n".join(lines) + "\n").encode()))
+    entries.append(("f", "elsewhere/lib/ok.etk", b"push4 0xdeadbeef\n"))
+    entries.append(("f", "elsewhere/lib/ok.hex", b"63deadbeef"))
+    entries.append(("l", "proj/main_link.etk", "../elsewhere/real_main.etk"))
     return top, entries, lines
 
 
@@ -301,8 +307,14 @@ def reads_outside(case, opened):
     base, top_abs = materialise(case)
     try:
         root = os.path.realpath(os.path.dirname(top_abs))
+        top_seen = False
         for rel in opened:
             real = os.path.realpath(os.path.join(base, rel))
+            if not top_seen and real == os.path.realpath(top_abs):
+                # the top-level source is named by the user (it may be a symlink to a file elsewhere): its own first read is
+                # not a directive's read
+                top_seen = True
+                continue
             if not (real == root or real.startswith(root + os.sep)):
                 return rel
         return None
